@@ -48,10 +48,10 @@ ApplyNum(op, a, b) ==
                     ELSE IF Abs(a) <= MAXV \div Abs(b) THEN Chk(a * b) ELSE UNDEF
     [] op = "/"  -> IF b = 0 THEN UNDEF ELSE Num(TDiv(a, b))
     [] op = "%"  -> IF b = 0 THEN UNDEF ELSE Num(TMod(a, b))
-    [] op = "<<" -> IF a < 0 \/ b < 0 \/ b > 31 THEN UNDEF
+    [] op = "<<" -> IF a < 0 \/ b < 0 THEN UNDEF
                     ELSE IF b > 30 THEN (IF a = 0 THEN Num(0) ELSE UNDEF)
                     ELSE IF a <= MAXV \div Pow2(b) THEN Num(a * Pow2(b)) ELSE UNDEF
-    [] op = ">>" -> IF a < 0 \/ b < 0 \/ b > 31 THEN UNDEF
+    [] op = ">>" -> IF a < 0 \/ b < 0 THEN UNDEF                  \* any count, also beyond the word size: floor(a / 2^b)
                     ELSE IF b > 30 THEN Num(0) ELSE Num(a \div Pow2(b))
     [] op = "^"  -> IF a < 0 \/ b < 0 THEN UNDEF ELSE Num(XorNat(a, b))
     [] op = "==" -> B(a = b)
